@@ -33,6 +33,29 @@ theorem mulForms_correct : ∀ f ∈ (mulForms : List (String × (ℕ → G → 
   simp only [mulForms, List.forall_mem_cons]
   repeat' (first | constructor | (intro k a; first | trivial | abel) | (intro f hf; simp at hf))
 
+/-! ### `impl Sum<…> for Element` and `Element::vartime_multiscalar_mul` -/
+
+theorem foldl_add_eq_sum (l : List G) : ∀ acc : G, l.foldl (fun x y => x + y) acc = acc + l.sum := by
+  induction l with
+  | nil => intro acc; simp
+  | cons x xs ih => intro acc; rw [List.foldl_cons, ih, List.sum_cons]; abel
+
+theorem foldl_add_map {α : Type} (g : α → G) (l : List α) : ∀ acc : G, l.foldl (fun acc x => acc + g x) acc = acc + (l.map g).sum := by
+  induction l with
+  | nil => intro acc; simp
+  | cons x xs ih => intro acc; rw [List.foldl_cons, ih, List.map_cons, List.sum_cons]; abel
+
+/-- every `Sum` form returns the group sum of what the iterator yields (the empty sum is 0) -/
+theorem gsumForms_correct : ∀ f ∈ (gsumForms : List (String × (List G → G))), ∀ l, f.2 l = l.sum := by
+  simp only [gsumForms, List.forall_mem_cons]
+  repeat' (first | constructor | (intro l; first | trivial | (simp only [foldl_add_eq_sum, zero_add]) | (simp only [foldl_add_map, zero_add, List.map_id'])) | (intro f hf; simp at hf))
+
+/-- the multiscalar multiplication is the sum of the products, over the pairs `zip` forms (the shorter list decides) -/
+theorem msmForms_correct : ∀ f ∈ (msmForms : List (String × (List ℕ → List G → G))), ∀ ss ps,
+    f.2 ss ps = ((ss.zip ps).map (fun sp => sp.1 • sp.2)).sum := by
+  simp only [msmForms, List.forall_mem_cons]
+  repeat' (first | constructor | (intro ss ps; first | trivial | (simp only [foldl_add_map, zero_add]) | (simp only [foldl_add_map, zero_add, add_comm])) | (intro f hf; simp at hf))
+
 end Formulas.OpForms
 
 /-! ### the operator forms of the three prime fields (src/fields/{fq,fr,fp}/ops.rs; 87 impl blocks on the pinned tree),
